@@ -40,7 +40,29 @@
 (* CmdVal(cmd)).  Starting a command takes two steps: the argument vector   *)
 (* (shell, "-c", command string) is built, then the process is started with *)
 (* it.  The vector is private too (interp[i].argv).                         *)
-(* Every program ends with  print a; print b  (appended by Code).          *)
+(* RANGE RULES: a body item [op |-> "range", g |-> lo, k |-> hi] is not an  *)
+(* instruction of BEGIN but a pattern-action rule of the program,          *)
+(*      NR == lo, NR == hi { print 1000 * j + NR }      (j: its place in   *)
+(* the body), applied to the NRec records of the input after BEGIN: Code   *)
+(* appends one instruction [op |-> "rec", g |-> j, k |-> n] per record n   *)
+(* and rule j.  Whether a rule is between its start and its stop record is *)
+(* state of the EXECUTION: interp[i].open, the set of open rules, empty    *)
+(* when an execution starts -- also when an earlier execution ended with   *)
+(* the range still open (hi beyond the last record).                       *)
+(* NUMBER FORMATS: private state of the interpreter as well: interp[i].fmt, *)
+(* p = FmtOf(i) fraction digits -- the real executions get OFMT = "%.<p>f"  *)
+(* and CONVFMT = "%.<p+1>f" as variables of Config.Vars, different for every *)
+(* process.  Two instructions convert the NON-INTEGER number g + 1/4:       *)
+(*   [op |-> "oprint", g, k]  out = out ++ <<p, digits>>      print a + 0.25        (OFMT)     *)
+(*   [op |-> "conv",   g, k]  out = out ++ <<p + 1, digits>>  print ((a + 0.25) "") (CONVFMT)  *)
+(* where <<q, digits>> stands for the numeral with q fraction digits whose  *)
+(* digits (the point left out) are FracDigits(q, g): 7.250 is <<3, 7250>>.  *)
+(* q >= 2, so the numeral is exact.  Like starting a command, a conversion  *)
+(* takes two steps: the format in force is determined, then applied; the    *)
+(* SharedShellArgs slip (the determined format is ONE process-level         *)
+(* location) makes an execution print with another interpreter's format.    *)
+(* Every program ends with  print a; print b  (appended by Code; in END    *)
+(* when the program has rules).                                            *)
 (*                                                                         *)
 (* Random numbers are not computed: the n-th number after seeding with s   *)
 (* is the token RandTok(s, n), the seed an execution starts with the token *)
@@ -58,8 +80,9 @@
 (*   SharedCache = TRUE  "match" memoises its last result inside the       *)
 (*        program, and "rlen" reuses the program's compiled literal of the *)
 (*        same source, switching it to leftmost-longest when it needs it   *)
-(*        (the compiler then leaves the flag off): writes into the shared  *)
-(*        program;                                                         *)
+(*        (the compiler then leaves the flag off), and the in-range flags  *)
+(*        of the range rules are a table of the program (sized by the      *)
+(*        compiler): writes into the shared program;                       *)
 (*   ReuseInterp = TRUE  New(i) takes over the interpreter left behind by  *)
 (*        the execution that finished last (a pool of one) and restores    *)
 (*        everything but the random generator: the second execution does   *)
@@ -97,7 +120,14 @@ IsToken(v) == v >= 10000
 \* the command string of process i (0: an execution running alone) and what the command `echo <id>` prints
 CmdOf(i) == i
 CmdVal(c) == 100 + c
-CmdOps == {"system", "cmdgetline", "printcmd"}
+\* the number format of process i (fraction digits of its OFMT; its CONVFMT has one more), the operations that
+\* convert a non-integer number, and the digits of v + 1/4 written with q >= 2 fraction digits
+FmtOf(i) == 2 + (i % 4)
+FmtOps == {"oprint", "conv"}
+RECURSIVE Pow10(_)
+Pow10(n) == IF n = 0 THEN 1 ELSE 10 * Pow10(n - 1)
+FracDigits(q, v) == v * Pow10(q) + 25 * Pow10(q - 2)
+CmdOps == {"system", "cmdgetline", "printcmd"} \cup FmtOps
 \* process-level state outside the program and outside every interpreter: the one argument vector of the slip
 NoShell == [args |-> 0]
 
@@ -105,20 +135,30 @@ NoShell == [args |-> 0]
 ApiOf(i) == CASE i % 3 = 1 -> "new-execute" [] i % 3 = 2 -> "execprogram" [] OTHER -> "new-executecontext"
 
 Tail2 == <<[op |-> "print", g |-> 1, k |-> 0], [op |-> "print", g |-> 2, k |-> 0]>>
-Code(body) == body \o Tail2
+\* range rules: the records of the input, the rules of a body, the code that applies every rule to every record
+NRec == 3
+IsRule(m) == m.op = "range"
+BeginPart(body) == SelectSeq(body, LAMBDA m : ~IsRule(m))
+RuleIdx(body) == SelectSeq([j \in 1..Len(body) |-> j], LAMBDA j : IsRule(body[j]))
+RecCode(body) == LET ri == RuleIdx(body)
+                 IN [q \in 1..(NRec * Len(ri)) |-> [op |-> "rec", g |-> ri[((q - 1) % Len(ri)) + 1], k |-> ((q - 1) \div Len(ri)) + 1]]
+RuleVal(j, n) == 1000 * j + n
+Code(body) == BeginPart(body) \o RecCode(body) \o Tail2
 
 \* the parser compiles every literal as leftmost-longest (under the SharedCache slip it leaves that to the interpreter)
-MkProgram(body) == [code |-> Code(body), consts |-> Consts,
+\* rules: the body (rule j is body[j]); rflags: the in-range table of the SharedCache slip (the set of open rules)
+MkProgram(body) == [code |-> Code(body), consts |-> Consts, rules |-> body, rflags |-> {},
                     regexes |-> [r \in 1..NumRegex |-> [src |-> r, longest |-> ~SharedCache]],
                     cache |-> [r \in 1..NumRegex |-> [valid |-> FALSE, arg |-> 0, res |-> 0]]]
 
 \* rc: sources compiled at run time (private cache); sc, nr: seed code and numbers drawn since seeding;
 \* cmd: the command string; argv, ph: the argument vector of the command being started (ph = 1: built, not yet started);
-\* rd: the reader stream of the command ("closed", or "eof": open and read to its end)
+\* rd: the reader stream of the command ("closed", or "eof": open and read to its end);
+\* open: the range rules that are between their start and their stop record
 NewInterp == [status |-> "run", pc |-> 1, g |-> <<0, 0>>, out |-> <<>>, rc |-> {}, sc |-> 0, nr |-> 0,
-              cmd |-> CmdOf(0), argv |-> 0, ph |-> 0, rd |-> "closed"]
+              cmd |-> CmdOf(0), fmt |-> FmtOf(0), argv |-> 0, ph |-> 0, rd |-> "closed", open |-> {}]
 NoInterp  == [status |-> "none", pc |-> 0, g |-> <<0, 0>>, out |-> <<>>, rc |-> {}, sc |-> 0, nr |-> 0,
-              cmd |-> CmdOf(0), argv |-> 0, ph |-> 0, rd |-> "closed"]
+              cmd |-> CmdOf(0), fmt |-> FmtOf(0), argv |-> 0, ph |-> 0, rd |-> "closed", open |-> {}]
 
 PLoc(table, idx)   == <<"prog", table, idx>>
 ILoc(i, part, idx) == <<"interp", i, part, idx>>
@@ -151,6 +191,20 @@ Exec1(pr, it, i) ==
              pr |-> pr,
              reads |-> rd0 \cup {PLoc("consts", ins.k), ILoc(i, "rng", 0)},
              writes |-> {ILoc(i, "rng", 0), ILoc(i, "out", 0), ILoc(i, "pc", 0)}]
+       [] ins.op = "rec" ->
+            \* rule ins.g applied to record ins.k: the start expression is evaluated only outside the range, the stop
+            \* expression also for the record that opens it; the action runs for every record of the range
+            LET rule    == pr.rules[ins.g]
+                openset == IF SharedCache THEN pr.rflags ELSE it.open
+                inside  == ins.g \in openset \/ ins.k = rule.g
+                stays   == inside /\ ins.k # rule.k
+                newset  == IF stays THEN openset \cup {ins.g} ELSE openset \ {ins.g}
+                it1     == IF inside THEN [it EXCEPT !.out = Append(@, RuleVal(ins.g, ins.k))] ELSE it
+                fl      == IF SharedCache THEN PLoc("rflags", ins.g) ELSE ILoc(i, "open", ins.g)
+            IN [it |-> nxt(IF SharedCache THEN it1 ELSE [it1 EXCEPT !.open = newset]),
+                pr |-> IF SharedCache THEN [pr EXCEPT !.rflags = newset] ELSE pr,
+                reads |-> rd0 \cup {PLoc("rules", ins.g), ILoc(i, "nr", 0), fl},
+                writes |-> {fl, ILoc(i, "out", 0), ILoc(i, "pc", 0)}]
        [] ins.op = "rlen" ->
             IF SharedCache
             THEN \* the slip: take the program's literal of the same source and make it leftmost-longest
@@ -186,10 +240,15 @@ ExecP(pr, sh, it, i) ==
       cs  == IF SharedShellArgs THEN sh.args ELSE it.argv
       arl == IF SharedShellArgs THEN ShLoc ELSE ILoc(i, "argv", 0)
   IN CASE ins.op \in CmdOps /\ it.ph = 0 /\ ~(ins.op = "cmdgetline" /\ it.rd = "eof") ->
-            \* step 1: build the argument vector
-            [it |-> [it EXCEPT !.ph = 1, !.argv = IF SharedShellArgs THEN @ ELSE it.cmd], pr |-> pr,
-             sh |-> IF SharedShellArgs THEN [sh EXCEPT !.args = it.cmd] ELSE sh,
-             reads |-> rd0 \cup {ILoc(i, "cmd", 0)}, writes |-> {arl, ILoc(i, "ph", 0)}]
+            \* step 1: build the argument vector (a conversion: determine the format in force)
+            LET src == CASE ins.op = "oprint" -> it.fmt [] ins.op = "conv" -> it.fmt + 1 [] OTHER -> it.cmd
+            IN [it |-> [it EXCEPT !.ph = 1, !.argv = IF SharedShellArgs THEN @ ELSE src], pr |-> pr,
+                sh |-> IF SharedShellArgs THEN [sh EXCEPT !.args = src] ELSE sh,
+                reads |-> rd0 \cup {ILoc(i, IF ins.op \in FmtOps THEN "fmt" ELSE "cmd", 0)}, writes |-> {arl, ILoc(i, "ph", 0)}]
+       [] ins.op \in FmtOps ->
+            \* step 2: the number g + 1/4 written with the determined format
+            [it |-> nxt([it EXCEPT !.out = @ \o <<cs, FracDigits(cs, gv)>>, !.ph = 0]), pr |-> pr, sh |-> sh,
+             reads |-> rd0 \cup {arl, ILoc(i, "g", ins.g)}, writes |-> {ILoc(i, "out", 0), ILoc(i, "ph", 0), ILoc(i, "pc", 0)}]
        [] ins.op = "system" ->
             \* step 2: start the process; what it prints goes to the output of the execution
             [it |-> nxt([it EXCEPT !.out = Append(@, CmdVal(cs)), !.ph = 0]), pr |-> pr, sh |-> sh,
@@ -213,7 +272,7 @@ ExecP(pr, sh, it, i) ==
 \* running alone, on a pristine program, in a process of its own; c: the command string of the execution
 RECURSIVE SoloRun(_, _, _)
 SoloRun(pr, sh, it) == IF it.status = "done" THEN it ELSE LET e == ExecP(pr, sh, it, 0) IN SoloRun(e.pr, e.sh, e.it)
-SoloFor(body, c) == SoloRun(MkProgram(body), NoShell, [NewInterp EXCEPT !.cmd = c])
+SoloFor(body, c) == SoloRun(MkProgram(body), NoShell, [NewInterp EXCEPT !.cmd = c, !.fmt = FmtOf(c)])
 Solo(body) == SoloFor(body, CmdOf(0))
 
 \* the interpreter an execution starts with: a new one -- or, under the ReuseInterp slip, the one the last finished
@@ -221,7 +280,7 @@ Solo(body) == SoloFor(body, CmdOf(0))
 StartInterp(spare) ==
   IF ReuseInterp /\ spare.status = "done" THEN [NewInterp EXCEPT !.sc = spare.sc, !.nr = spare.nr] ELSE NewInterp
 \* ... of process i: with the command string of that process
-StartInterpOf(i, spare) == [StartInterp(spare) EXCEPT !.cmd = CmdOf(i)]
+StartInterpOf(i, spare) == [StartInterp(spare) EXCEPT !.cmd = CmdOf(i), !.fmt = FmtOf(i)]
 
 \* ---- the properties, as predicates over (program, interp, acc) ----
 OwnLoc(loc, i)  == loc[1] = "interp" /\ loc[2] = i
